@@ -49,7 +49,17 @@ var quoteCommentBodies = []struct{ name, body string }{
 	{"strcloser", ` '#' "}}" `},
 }
 
+// undashedInQuick: bases that the quick tier pads without dash variants only (what a dash does next to a
+// comment is the business of the 13 bases above; the thorough tier runs every variant of these too).
+var undashedInQuick = map[string]bool{}
+
 func init() {
+	n0 := len(commentBases)
+	defer func() {
+		for _, b := range commentBases[n0:] {
+			undashedInQuick[b.name] = true
+		}
+	}()
 	for _, q := range quoteCommentBodies {
 		c := C(q.body)
 		commentBases = append(commentBases,
